@@ -475,4 +475,50 @@ example : jwsHdr (.obj [("protected", .obj [("alg", .str "P")]), ("header", .obj
 theorem model_is_code_on_grid : Jose.Grid.C15.chunks.all (fun c => c.all Jose.Driver.agrees) = true := by
   decide +kernel
 
+/-! ### parameters a key-management algorithm generates are never shadowed (after fix F28)
+
+  PBES2 records its fresh salt, ECDH-ES its ephemeral key, AES-GCM key wrap its IV and tag in the per-recipient
+  header — the least trusted of the three.  Wrapping succeeds only if neither the protected nor the shared
+  unprotected header of the object already defines that parameter; otherwise the merged header of the result would
+  name the caller's value while the generated one was applied. -/
+
+theorem pbes2_salt_not_shadowed (P : Prims) (name h aes : String) (klen fuel : Nat) (jwe jwk cek : Json)
+    (rkvs : List (String × Json)) (rnd : Bs) (out : Json × Json)
+    (hf : wrapFamily name = some (.pbes2 h aes klen))
+    (hw : wrp P (fuel + 1) name jwe (.obj rkvs) jwk cek rnd = some out) :
+    sharedHdrHas jwe "p2s" = false := by
+  simp only [wrp, hf, Option.bind_eq_some_iff] at hw
+  obtain ⟨⟨c1, r1⟩, _, hw⟩ := hw
+  split at hw
+  · simp at hw
+  · rename_i hs; simpa using hs
+
+theorem gcmkw_iv_tag_not_shadowed (P : Prims) (name : String) (klen fuel : Nat) (jwe jwk cek : Json)
+    (rkvs : List (String × Json)) (rnd : Bs) (out : Json × Json)
+    (hf : wrapFamily name = some (.gcmkw klen))
+    (hw : wrp P (fuel + 1) name jwe (.obj rkvs) jwk cek rnd = some out) :
+    sharedHdrHas jwe "iv" = false ∧ sharedHdrHas jwe "tag" = false := by
+  simp only [wrp, hf] at hw
+  split at hw
+  · simp at hw
+  · rename_i hs; simpa using hs
+
+theorem ecdhes_epk_not_shadowed (P : Prims) (name : String) (kw : Option String) (dkl : Option Nat) (fuel : Nat)
+    (jwe jwk cek : Json) (rkvs : List (String × Json)) (rnd : Bs) (out : Json × Json)
+    (hf : wrapFamily name = some (.ecdhes kw dkl))
+    (hw : wrp P (fuel + 1) name jwe (.obj rkvs) jwk cek rnd = some out) :
+    sharedHdrHas jwe "epk" = false := by
+  simp only [wrp, hf, Option.bind_eq_some_iff] at hw
+  obtain ⟨⟨c1, r1⟩, _, hdr, _, hw⟩ := hw
+  split at hw
+  · simp at hw
+  · rename_i hs; simpa using hs
+
+/-- the refusal is not vacuous: a template whose protected header carries a salt -/
+example : sharedHdrHas (.obj [("protected", .obj [("alg", .str "PBES2-HS256+A128KW"), ("p2s", .str "AAAAAAAAAAAAAAAA")])]) "p2s" = true := by
+  decide +kernel
+/-- and the usual template is not refused for it -/
+example : sharedHdrHas (.obj [("protected", .obj [("alg", .str "PBES2-HS256+A128KW")])]) "p2s" = false := by
+  decide +kernel
+
 end Jose.Props.C15
